@@ -52,4 +52,20 @@ Render(f, A) == Scan(f, 1, 0, A)
 
 \* inputs for which the documentation is silent are not generated: conversion c on an integer argument
 Documented(f, A) == TRUE
+
+\* ---- beyond the listed properties (reported as NOTE, never as a verdict) ---------------------------------------------
+\* escape_fmt: letters, digits, blank and the punctuation below pass; \\ " ' newline tab get a backslash form; every other
+\* byte becomes \x{<lower-case hex, no padding>}
+Punct == {33, 35, 36, 37, 38, 40, 41, 42, 43, 44, 45, 46, 47, 58, 59, 60, 61, 62, 63, 64, 91, 93, 94, 95, 96, 123, 124, 125, 126}
+EscapeChar(c) ==
+  IF c \in 97..122 \/ c \in 65..90 \/ c \in 48..57 \/ c = 32 \/ c \in Punct THEN <<c>>
+  ELSE IF c = 92 THEN <<92, 92>> ELSE IF c = 34 THEN <<92, 34>> ELSE IF c = 39 THEN <<92, 39>>
+  ELSE IF c = 10 THEN <<92, 110>> ELSE IF c = 9 THEN <<92, 116>>
+  ELSE <<92, 120, 123>> \o DigitsOf(c, 16, FALSE) \o <<125>>
+RECURSIVE Escape(_)
+Escape(bs) == IF bs = <<>> THEN <<>> ELSE EscapeChar(Head(bs)) \o Escape(Tail(bs))
+\* to_allocated_string(v, radix, precision): the digits of v (none for 0), left-padded with '0' to the precision
+ToAllocatedString(v, radix, prec) ==
+  LET ds == IF v = 0 THEN <<>> ELSE DigitsOf(v, radix, FALSE) IN
+  [i \in 1..(IF prec > Len(ds) THEN prec - Len(ds) ELSE 0) |-> 48] \o ds
 =============================================================================
